@@ -256,6 +256,16 @@ class SourceFile:
         depth = 0
         while i < len(toks):
             t = toks[i]
+            if t.kind == 'ident' and t.text == 'trait' and toks[i + 1].kind == 'ident' and (i == 0 or toks[i - 1].text in (';', '}', 'pub', ']', ')')):
+                # `trait Name: Bounds { default methods }` is listed like an inherent impl of `Name`
+                j = i + 2
+                while j < len(toks) and toks[j].text not in ('{', ';'):
+                    j += 1
+                if j < len(toks) and toks[j].text == '{':
+                    c = match_close(toks, j)
+                    out.append((toks[i + 1].text, None, j, c, i))
+                    i = c + 1
+                    continue
             if t.kind == 'ident' and t.text == 'impl' and (i == 0 or toks[i - 1].text != '.'):
                 j = i + 1
                 if toks[j].text == '<':
